@@ -118,7 +118,7 @@ func validateGoCallableFunc(fn interface{}) error {
 
 	v := reflect.ValueOf(fn)
 
-	if v.Kind() != reflect.Func {
+	if v.Kind() != reflect.Func || v.IsNil() {
 		return fmt.Errorf("func must be a Go function")
 	}
 
